@@ -28,6 +28,9 @@ class Wire:
         # multiple wires can be at the same spot; this list holds other
         # coincident wires
         self.coincidents: Set[Wire] = set()
+        # the same wires in the order they were added (iteration order of a
+        # set of objects changes from run to run)
+        self.coincident_list: List[Wire] = []
 
     @property
     def length(self) -> float:
@@ -53,8 +56,9 @@ class Wire:
 
     def add_coincident(self, wire):
         """Adds a reference to a coincident wire, if it's aligned"""
-        if self.is_coincident(wire):
+        if self.is_coincident(wire) and wire not in self.coincidents:
             self.coincidents.add(wire)
+            self.coincident_list.append(wire)
 
     def add_chop(self, chop: Chop) -> None:
         """Adds Chops to this Wire's Grading object"""
